@@ -207,6 +207,14 @@ def schedule_rules(R, ts):
         okf, _ = RU.must_follow(f, lambda e: any(e is i for i in ins), lambda e: any(e is s for s in sched))
         sv = [f.is_const(_assignment_of(f, s)["a"][1]) for s in sched if _assignment_of(f, s)]
         R.check(bool(sched) and okf and all(v == 1 for v in sv), "SCHEDULE", "%s:scheduled-set" % name, "%s()" % name, "scheduled=true on every path after insertion")
+        if not name.endswith("now"):
+            # a task given a time - any time, 0 included - is a timed task: it goes to the timed structures on every path
+            # (run-all runs the run-now tasks first and the timed tasks after them, in time order)
+            asap = [e for e in f.calls({"aws_task_scheduler_schedule_now"})] + [e for e in f.calls({"aws_linked_list_push_back", "aws_linked_list_push_front", "aws_linked_list_insert_before", "aws_linked_list_insert_after"}) if "asap_list" in f.show(e.node)]
+            timed_ins = ins + [e for e in f.calls({"aws_linked_list_insert_before", "aws_linked_list_push_back"}) if "task->node" in f.show(e.node) and "asap_list" not in f.show(e.node)]
+            tsx = Typestate(f, 0, lambda e, s: 1 if any(e is i for i in timed_ins) else s)
+            R.check(not asap and tsx.exit_states == {1}, "SCHEDULE", "future:always-a-timed-task", "%s()" % name, "every path inserts the task into the timed heap or the timed overflow list, never into the run-now list",
+                    "schedule_future puts a task on the run-now list or returns without inserting it (%s; exit states %s): a timed task (time 0) then runs among the run-now tasks, before run-now tasks scheduled after it" % ([f.show(e.node)[:40] for e in asap], sorted(tsx.exit_states)))
         if not name.endswith("now") and ins:
             R.check(argstr(f, ins[0].node, 2) == "task->priority_queue_node" and argstr(f, ins[0].node, 1) == "task", "SCHEDULE", "future:handle-registered", where(f, ins[0]), "pushed with its own handle")
             # fallback sorted insertion
@@ -344,5 +352,6 @@ MUTANTS = [
     {"name": "cancel-heap-removal-unguarded", "file": TS, "expect": "CANCEL", "old": "    } else if (task->abi_extension.scheduled) {", "new": "    } else {"},
     {"name": "has-tasks-from-timestamp", "file": TS, "expect": "HAS-TASKS", "old": "    return has_tasks;\n}", "new": "    return timestamp != UINT64_MAX;\n}"},
     {"name": "wrap-safe-comparator", "file": TS, "expect": "COMPARATOR", "old": "    return a_time > b_time; /* min-heap */", "new": "    return (int64_t)(a_time - b_time) > 0; /* min-heap */"},
+    {"name": "future-time-zero-goes-to-run-now", "file": TS, "expect": "SCHEDULE", "old": "    task->timestamp = time_to_run;\n\n    aws_priority_queue_node_init(&task->priority_queue_node);", "new": "    if (time_to_run == 0) {\n        aws_task_scheduler_schedule_now(scheduler, task);\n        return;\n    }\n    task->timestamp = time_to_run;\n\n    aws_priority_queue_node_init(&task->priority_queue_node);"},
     {"name": "fallback-stops-at-equal", "file": TS, "expect": "SCHEDULE", "old": "            if (task_i->timestamp > time_to_run) {", "new": "            if (task_i->timestamp >= time_to_run) {"},
 ]
